@@ -279,6 +279,7 @@ def run_old(case: dict, fault=None) -> dict:
                 cached=case.get("cached", False),
                 scroll=case.get("scroll", False),
                 check_size=case.get("check_size", True),
+                **case.get("style_args", {}),
             )
         except BaseException as e:  # noqa: BLE001
             outcome = type(e).__name__
